@@ -5,7 +5,7 @@ CONSTANTS
   Types = {8, 32}
 VIEW View
 INVARIANTS QueueRefinement Bounded ImplShape SizeEmptyFullAgree IterOldNewIsQueue IterNewOldIsReverse
-PROPERTIES GetOldest PutRule
+PROPERTIES GetOldest PutRule RefinesAbs
 CONSTRAINT EmitInit
 ACTION_CONSTRAINT EmitAll
 CHECK_DEADLOCK FALSE
